@@ -20,20 +20,15 @@ fn compute_intersection(
     s: &Coord<f64>,
     e: &Coord<f64>,
 ) -> Coord<f64> {
-    let dc = Coord {
-        x: cp1.x - cp2.x,
-        y: cp1.y - cp2.y,
-    };
-    let dp = Coord {
-        x: s.x - e.x,
-        y: s.y - e.y,
-    };
-    let n1 = cp1.x * cp2.y - cp1.y * cp2.x;
-    let n2 = s.x * e.y - s.y * e.x;
-    let n3 = 1.0 / (dc.x * dp.y - dc.y * dp.x);
+    // Interpolate along the subject edge (cp1, cp2) between the signed distances of its ends
+    // to the clipping line (s, e). The ends lie on different sides of that line, so the
+    // denominator cannot vanish, also when the two lines are (almost) parallel.
+    let side = |q: &Coord<f64>| (e.x - s.x) * (q.y - s.y) - (e.y - s.y) * (q.x - s.x);
+    let (d1, d2) = (side(cp1), side(cp2));
+    let t = d1 / (d1 - d2);
     Coord {
-        x: (n1 * dp.x - n2 * dc.x) * n3,
-        y: (n1 * dp.y - n2 * dc.y) * n3,
+        x: cp1.x + t * (cp2.x - cp1.x),
+        y: cp1.y + t * (cp2.y - cp1.y),
     }
 }
 
